@@ -17,7 +17,7 @@ def confTable : Table where
     ⟨"claw_decor_place_type", .enum 0, .enum 0 1⟩,
     ⟨"claw_is_pep526", .bool, .bool true⟩,
     ⟨"claw_skip_package_names", .identColl, .coll .tuple []⟩,
-    ⟨"hint_overrides", .frozenDict, .fdict .absent .absent 0 true⟩,
+    ⟨"hint_overrides", .frozenDict, .fdict .absent .absent 0 true true⟩,
     ⟨"is_color", .tristate, .num .int (3133065982)⟩,
     ⟨"is_debug", .bool, .bool false⟩,
     ⟨"is_pep484_tower", .bool, .bool false⟩,
